@@ -40,7 +40,7 @@ Definition group_members (d : desc) (g : nat) : list Z :=
 
 (* the maximal run of events numbered fn at the END of l: a oneof member of
    message type that is hit again while it is the current case is merged
-   (`if oneof, ok := m.Body.(*X_Case); ok { oneof.Case.UnmarshalVT(...) }`),
+   (the generated code type-asserts m.Body to the same case and calls UnmarshalVT on it),
    any other member in between replaces it *)
 Fixpoint trailing_run (fn : Z) (l : list fval) (acc : list fval) : list fval :=
   match l with
